@@ -10,6 +10,7 @@ import (
 	"context"
 	"encoding/json"
 	"fmt"
+	"runtime"
 	"sort"
 	"sync"
 	"sync/atomic"
@@ -38,6 +39,8 @@ type Step struct {
 	Pass    string         `json:"pass"`
 	Pending int            `json:"pending"`
 	Dirty   bool           `json:"dirty"`
+	Lo      map[string]int `json:"lo"` // for Evict: the range the specification allows (pre-state)
+	Hi      map[string]int `json:"hi"`
 }
 
 type Case struct {
@@ -154,8 +157,23 @@ func run(c *Case, out *Out) {
 		return false
 	}
 	held := func(n string) int { return int(tors[n].Pieces.Bytes() / PS) }
+	// The evictions run in goroutines of their own, without a completion
+	// signal: they have ended when the number of goroutines is back to what
+	// it was before any pass (plus the pass's own goroutine while it is parked).
+	g0 := runtime.NumGoroutine()
+	passParkedNow := false
+	settled := true
 	settle := func() {
-		// the evictions run in goroutines without a completion signal: wait until the sizes stop changing
+		limit := g0
+		if passParkedNow {
+			limit++
+		}
+		for k := 0; k < 4000 && runtime.NumGoroutine() > limit; k++ {
+			time.Sleep(3 * time.Millisecond)
+		}
+		if runtime.NumGoroutine() > limit {
+			settled = false
+		}
 		prev, same := int64(-1), 0
 		for k := 0; k < 2000 && same < 4; k++ {
 			cur := alloc.Bytes()
@@ -186,11 +204,14 @@ func run(c *Case, out *Out) {
 		panic any
 	}
 	var passCh chan passResult
-	running := 0 // evictions released and possibly still running
+	lastRc, dirty, diverged := 9, true, false
+	running := 0  // eviction rounds
+	released := 0 // evictions released so far
 	for k, st := range c.Steps[1:] {
 		desc := fmt.Sprintf("step %d %s", k+1, st.L.A)
 		switch st.L.A {
 		case "Add":
+			dirty = true
 			if !add(st.L.T) {
 				out.Note = desc + ": cannot add"
 				kill()
@@ -208,6 +229,7 @@ func run(c *Case, out *Out) {
 			}(passCh)
 			select {
 			case <-passParked:
+				passParkedNow = true
 			case <-time.After(5 * time.Second):
 				out.Note = desc + ": tor.Expire did not reach its yield point"
 				kill()
@@ -217,6 +239,7 @@ func run(c *Case, out *Out) {
 			out.Passes++
 			before := atomic.LoadInt32(&parkedEv)
 			passRelease <- struct{}{}
+			passParkedNow = false
 			select {
 			case r := <-passCh:
 				if r.panic != nil {
@@ -230,7 +253,9 @@ func run(c *Case, out *Out) {
 					kill()
 					return
 				}
-				if r.rc != st.Rc {
+				lastRc = r.rc
+				dirty = false
+				if !diverged && r.rc != st.Rc {
 					out.Nonconf = append(out.Nonconf, fmt.Sprintf("%s: tor.Expire returned %d, the model says %d", desc, r.rc, st.Rc))
 				}
 			case <-time.After(10 * time.Second):
@@ -238,42 +263,69 @@ func run(c *Case, out *Out) {
 				kill()
 				return
 			}
-			// the evictions it has launched park at their first yield point
-			for n := 0; n < 50; n++ {
+			// the evictions it has launched park at their first yield point:
+			// wait until every goroutine beyond the baseline is a parked one
+			_ = before
+			ok := false
+			for n := 0; n < 3000; n++ {
+				extra := runtime.NumGoroutine() - g0
+				if extra <= int(atomic.LoadInt32(&parkedEv))-released {
+					ok = true
+					break
+				}
 				time.Sleep(2 * time.Millisecond)
 			}
-			_ = before
+			if !ok {
+				out.Note = desc + ": the launched evictions did not reach their yield point"
+				kill()
+				return
+			}
 		case "Evict":
 			out.Evictions++
 			evMu.Lock()
 			close(evRelease)
 			evRelease = make(chan struct{})
+			released = int(atomic.LoadInt32(&parkedEv))
 			evMu.Unlock()
 			running++
 			settle()
+			if !settled {
+				out.Note = desc + ": the evictions did not end within 12 s"
+				kill()
+				return
+			}
 		default:
 			out.Note = "unknown action " + st.L.A
 			kill()
 			return
 		}
-		// observations
-		if st.L.A != "PassFinish" || true {
-			quiescentEv := st.Pending == 0
-			if quiescentEv {
-				var sum int64
-				for _, t := range tors {
-					sum += t.Pieces.Bytes()
-				}
-				if a := alloc.Bytes(); a != sum {
-					viol("alloc-accounting", fmt.Sprintf("%s: the allocator reports %d bytes, the stores hold %d", desc, a, sum))
-				}
+		// observations, from the real execution only
+		if int(atomic.LoadInt32(&parkedEv))-released == 0 {
+			var sum int64
+			for _, t := range tors {
+				sum += t.Pieces.Bytes()
+			}
+			if a := alloc.Bytes(); a != sum {
+				viol("alloc-accounting", fmt.Sprintf("%s: the allocator reports %d bytes, the stores hold %d", desc, a, sum))
+			}
+			if lastRc == -1 && !dirty && !passParkedNow && alloc.Bytes() > int64(c.Low)*PS {
+				viol("not-down-to-low-mark", fmt.Sprintf("%s: tor.Expire returned -1, its evictions have ended and nothing has arrived since, yet %d bytes are allocated; the low-water mark is %d",
+					desc, alloc.Bytes(), int64(c.Low)*PS))
+			}
+			// conformance with the model's state
+			if !diverged && st.Pending == 0 {
 				for n, want := range st.B {
-					if got := held(n); got != want {
-						out.Nonconf = append(out.Nonconf, fmt.Sprintf("%s: %s holds %d pieces, the model says %d", desc, n, got, want))
+					got := held(n)
+					if got == want {
+						continue
 					}
-				}
-				if st.Rc == -1 && !st.Dirty && st.Pass == "idle" && alloc.Bytes() > int64(c.Low)*PS {
-					viol("not-down-to-low-mark", fmt.Sprintf("%s: after a full eviction pass with nothing arriving, %d bytes are allocated, the low-water mark is %d", desc, alloc.Bytes(), int64(c.Low)*PS))
+					// Evict is nondeterministic in the specification: any size in lo..hi conforms,
+					// but from here on the generated behaviour describes another execution
+					diverged = true
+					if st.L.A == "Evict" && got >= st.Lo[n] && got <= st.Hi[n] {
+						continue
+					}
+					out.Nonconf = append(out.Nonconf, fmt.Sprintf("%s: %s holds %d pieces, the model says %d (allowed %d..%d)", desc, n, got, want, st.Lo[n], st.Hi[n]))
 				}
 			}
 		}
